@@ -1,7 +1,7 @@
 """Expression evaluation."""
 import ast
 import z3
-from .core import (Val, VNone, VTrue, VFalse, VInt, VStr, VBool, VRef, VFloat, I, B, S, R, ArrIV,
+from .core import (Val, VNone, VTrue, VFalse, VInt, VStr, VBool, VRef, VFloat, I, B, S, R, ArrIV, ArrVB, ArrVV,
                    ClassName, IsSub, StrOf, ReprOf, IdStr, Lower, TYPEBASE, HOST_CLASS_BASE, Unsupported,
                    FuncObj, BoundMethod, ClassObj, ModuleObj, ExternObj, BuiltinFn, SymCallable, SuperObj, Frame)
 from .front import mangle
@@ -90,10 +90,23 @@ class ExprMixin:
         return self.st.new_list([self.eval(x) for x in e.elts], "set")
 
     def e_Dict(self, e):
+        if any(k is None for k in e.keys):
+            # {**a, k: v, **b}: a new dict, filled left to right (later entries win)
+            d = self.st.new_dict([])
+            for k, v in zip(e.keys, e.values):
+                if k is None:
+                    src = self.eval(v)
+                    if self.tag(src, "dict-unpack") != "ref":
+                        self.raise_("TypeError", self.anchor(e))
+                    self.b_dict_update([d, src], {}, e, self.anchor(e))
+                    self.st.writes.pop()
+                else:
+                    kv, vv = self.eval(k), self.eval(v)
+                    self.dict_set(Val.r(d), kv, vv)
+                    self.st.writes.pop()
+            return d
         pairs = []
         for k, v in zip(e.keys, e.values):
-            if k is None:
-                raise Unsupported("dict unpacking")
             pairs.append((self.eval(k), self.eval(v)))
         return self.st.new_dict(pairs)
 
@@ -583,7 +596,45 @@ class ExprMixin:
         return self.comprehension(e, "list")
 
     def e_DictComp(self, e):
-        raise Unsupported("dict comprehension")
+        """{k: v for x in xs [if c]}: a small concrete iterable is unrolled; otherwise the element expressions are evaluated
+        for an arbitrary element (their obligations are checked) and the result is an abstract dict (contents unknown)."""
+        if len(e.generators) != 1:
+            raise Unsupported("nested comprehension")
+        g = e.generators[0]
+        it = self.eval(g.iter)
+        seq = self.iter_sequence(it, g.iter)
+        n = self.ctx.value_of(seq.length) if seq.kind == "list" else None
+        scope = Frame(self.frame.fi, self.frame, self.frame.lexical_class, self.frame.module)
+        scope.prefix = self.frame.prefix
+        self.frames.append(scope)
+        try:
+            d = self.st.new_dict([])
+            if n is not None and n <= 8:
+                for k_ in range(n):
+                    self.assign_target(g.target, seq.element(z3.IntVal(k_)))
+                    if all(self.ctx.branch(self.truth(self.eval(c), c), "comp-if") for c in g.ifs):
+                        kv, vv = self.eval(e.key), self.eval(e.value)
+                        self.dict_set(Val.r(d), kv, vv)
+                        self.st.writes.pop()
+                return d
+            idx = self.ctx.fresh("comp_i", I)
+            self.ctx.assume(z3.And(idx >= 0, idx < seq.length))
+            self.assign_target(g.target, seq.element(idx))
+            w0 = len(self.st.writes)
+            self._comp_alloc_mark = self.st.next_id
+            if all(self.ctx.branch(self.truth(self.eval(c), c), "comp-if") for c in g.ifs):
+                self.eval(e.key)
+                self.eval(e.value)
+            self._havoc_written(self.st.writes[w0:], idx)
+            r = Val.r(d)
+            self.st.dhas = z3.Store(self.st.dhas, r, self.ctx.fresh("dcomp_has", ArrVB))
+            self.st.dval = z3.Store(self.st.dval, r, self.ctx.fresh("dcomp_val", ArrVV))
+            ln = self.ctx.fresh("dcomp_len", I)
+            self.ctx.assume(z3.And(ln >= 0, ln <= seq.length))
+            self.st.dlen = z3.Store(self.st.dlen, r, ln)
+            return d
+        finally:
+            self.frames.pop()
 
     def _havoc_written(self, writes, idx):
         """Writes performed for the arbitrary element happen for every element: forget those heap parts."""
